@@ -1534,6 +1534,8 @@ def _collect(pe, st, args, t):
         for x in vals:
             toks = _str_tokens(pe, st, x)
             if toks is None:
+                toks = _char_tokens(x)  # a char, or a char selected under symbolic conditions
+            if toks is None:
                 if x != TOP and x[0] == "int" and x[1] == "char":
                     toks = (x[2],)
                 else:
@@ -2022,6 +2024,34 @@ _int_unary("count_zeros", lambda ty, x, n: mk_int("u32", n - bin(x & ((1 << n) -
 _int_unary("is_power_of_two", lambda ty, x, n: mk_bool(x > 0 and x & (x - 1) == 0))
 _int_unary("ilog2", lambda ty, x, n: mk_int("u32", x.bit_length() - 1) if x > 0 else TOP)
 _int_unary("isqrt", lambda ty, x, n: mk_int(ty, __import__("math").isqrt(x)) if x >= 0 else TOP)
+
+
+def _float_model(name, fn, nargs=1):
+    @pmodel("core::f64::<impl f64>::%s" % name, "std::f64::<impl f64>::%s" % name, "core::f32::<impl f32>::%s" % name, "std::f32::<impl f32>::%s" % name)
+    def f(pe, st, args, t):
+        xs = args[:nargs]
+        if any(x == TOP or x[0] != "float" for x in xs):
+            return TOP
+        try:
+            return fn(*[float(x[1]) for x in xs])
+        except (OverflowError, ValueError, ZeroDivisionError):
+            return TOP
+    return f
+
+
+import math as _math
+_float_model("fract", lambda x: ("float", x - _math.trunc(x)) if _math.isfinite(x) else TOP)
+_float_model("ceil", lambda x: ("float", float(_math.ceil(x))) if _math.isfinite(x) else ("float", x))
+_float_model("floor", lambda x: ("float", float(_math.floor(x))) if _math.isfinite(x) else ("float", x))
+_float_model("trunc", lambda x: ("float", float(_math.trunc(x))) if _math.isfinite(x) else ("float", x))
+_float_model("abs", lambda x: ("float", abs(x)))
+_float_model("sqrt", lambda x: ("float", _math.sqrt(x)) if x >= 0 else TOP)
+_float_model("signum", lambda x: ("float", _math.copysign(1.0, x)) if x == x else TOP)
+_float_model("is_nan", lambda x: mk_bool(x != x))
+_float_model("is_finite", lambda x: mk_bool(_math.isfinite(x)))
+_float_model("min", lambda x, y: ("float", min(x, y)) if x == x and y == y else TOP, 2)
+_float_model("max", lambda x, y: ("float", max(x, y)) if x == x and y == y else TOP, 2)
+_float_model("rem_euclid", lambda x, y: ("float", x - abs(y) * _math.floor(x / abs(y))) if y else TOP, 2)
 
 
 @pmodel("core::cmp::Ord::clamp", "std::cmp::Ord::clamp")
